@@ -93,6 +93,7 @@ static inline uint8_t verif_llvm_smin_i8(uint8_t a, uint8_t b){ return (int8_t)a
 static inline uint8_t verif_llvm_smax_i8(uint8_t a, uint8_t b){ return (int8_t)a>(int8_t)b?a:b; }
 static inline uint16_t verif_llvm_smin_i16(uint16_t a, uint16_t b){ return (int16_t)a<(int16_t)b?a:b; }
 static inline uint16_t verif_llvm_smax_i16(uint16_t a, uint16_t b){ return (int16_t)a>(int16_t)b?a:b; }
+static inline uint16_t verif_llvm_ctpop_i16(uint16_t x){ return (uint16_t)__builtin_popcount(x); }
 static inline uint8_t verif_llvm_ctpop_i8(uint8_t x){ return (uint8_t)__builtin_popcount(x); }
 static inline uint16_t verif_llvm_ctlz_i16(uint16_t x, uint8_t z){ if(x==0) return 16; return (uint16_t)(__builtin_clz(x) - 16); }
 static inline uint8_t verif_llvm_ctlz_i8(uint8_t x, uint8_t z){ if(x==0) return 8; return (uint8_t)(__builtin_clz(x) - 24); }
